@@ -1,46 +1,76 @@
 import ComposeVerif.Model.Paths
 /-!
-# C12 — statements the unchanged tree falsifies (concrete witnesses, `by decide`)
+# C12 — statements the tree falsified before the round-2 repairs (concrete witnesses, `by decide`)
 
 Included and extended files are resolved in two stages: first against a directory *relative to the
 project directory* (`sub`, `../sib`, …), then — with the rest of the model — against the project
-directory.  The second stage re-reads the value the first stage wrote.  When that intermediate value
-starts with `~`, looks like a remote build context, or looks Windows-absolute, the second stage takes the
-exemption branch and the path is anchored at the wrong place.  The full-strength statement
-"two-stage = one-stage against the joined directory" is therefore false; each witness below is replayed
-on the real loader (corpus/C12/*.json, findings/C12.txt).
+directory.  Before `fix: a path made relative to the project directory by the first resolution stage … keeps a
+leading ./` the second stage re-read the value the first stage wrote: an intermediate value that starts
+with `~`, looks like a remote build context, or looks Windows-absolute took the exemption branch of the second
+stage and the path was anchored at the wrong place.  `absPathStr₀`, `absContextStr₀`, `maybeUnixStr₀` are the
+resolvers as they were (plain `filepath.Join`); the witnesses below show that "two-stage = one-stage against
+the joined directory" was false for them.  For the repaired resolvers the statement is a theorem
+(`Props/C12.lean`: `resolve_compose`, `resolve_compose_context`, `resolve_compose_mount`, `resolve_compose_tree`)
+and the same inputs are kept in corpus/C12 as regression cases.
 -/
 namespace CV.Paths.Neg
 open CV.Paths
 
+/-- `absPath` before the repair -/
+def absPathStr₀ (cfg : Cfg) (s : Str) : Str :=
+  let v := expandUser cfg.home s
+  if isAbs v then v
+  else if v ≠ [] then join cfg.wd v
+  else v
+
+/-- `maybeUnixPath` before the repair -/
+def maybeUnixStr₀ (cfg : Cfg) (s : Str) : Out Str :=
+  let p := expandUser cfg.home s
+  if isAbs p then .ok p
+  else match isWindowsAbs? p with
+    | none => .panic "isWindowsAbs"
+    | some true => .ok p
+    | some false => .ok (join cfg.wd p)
+
+/-- `absContextPath` before the repair -/
+def absContextStr₀ (cfg : Cfg) (s : Str) : Str :=
+  if containsStr schemeSep s then s
+  else if isRemoteContext s then s
+  else absPathStr₀ cfg s
+
 def W : Str := ['/', 'w']
 def H : Option Str := some ['/', 'h']
 
-/-- a directory named `~`: `x` from an included/extended file in `./~/` ends up in the home directory -/
-theorem compose_fails_tilde_dir :
-    absPathStr ⟨W, H, fun _ => false, some⟩ (absPathStr ⟨['~'], H, fun _ => false, some⟩ ['x'])
-      ≠ absPathStr ⟨join W ['~'], H, fun _ => false, some⟩ ['x'] := by decide
+/-- a directory named `~`: `x` from an included/extended file in `./~/` ended up in the home directory -/
+theorem compose_failed_tilde_dir :
+    absPathStr₀ ⟨W, H, fun _ => false, some⟩ (absPathStr₀ ⟨['~'], H, fun _ => false, some⟩ ['x'])
+      ≠ absPathStr₀ ⟨join W ['~'], H, fun _ => false, some⟩ ['x'] := by decide
 
-/-- a value written `./~` in a file of the project directory itself: stage 1 strips the `./` guard -/
-theorem compose_fails_dot_tilde :
-    absPathStr ⟨W, H, fun _ => false, some⟩ (absPathStr ⟨['.'], H, fun _ => false, some⟩ ['.', '/', '~'])
-      ≠ absPathStr ⟨join W ['.'], H, fun _ => false, some⟩ ['.', '/', '~'] := by decide
+/-- a value written `./~` in a file of the project directory itself: stage 1 stripped the `./` guard -/
+theorem compose_failed_dot_tilde :
+    absPathStr₀ ⟨W, H, fun _ => false, some⟩ (absPathStr₀ ⟨['.'], H, fun _ => false, some⟩ ['.', '/', '~'])
+      ≠ absPathStr₀ ⟨join W ['.'], H, fun _ => false, some⟩ ['.', '/', '~'] := by decide
 
 def gh : Str := ['g', 'i', 't', 'h', 'u', 'b', '.', 'c', 'o', 'm']
 
-/-- build context `.` of a file in `./github.com/…`: stage 2 takes `github.com/x` for a remote context -/
-theorem compose_fails_remote_dir :
-    absContextStr ⟨W, H, fun _ => false, some⟩ (absContextStr ⟨gh, H, fun _ => false, some⟩ ['x'])
-      ≠ absContextStr ⟨join W gh, H, fun _ => false, some⟩ ['x'] := by decide
+/-- build context `.` of a file in `./github.com/…`: stage 2 took `github.com/x` for a remote context -/
+theorem compose_failed_remote_dir :
+    absContextStr₀ ⟨W, H, fun _ => false, some⟩ (absContextStr₀ ⟨gh, H, fun _ => false, some⟩ ['x'])
+      ≠ absContextStr₀ ⟨join W gh, H, fun _ => false, some⟩ ['x'] := by decide
 
 /-- build context written `./github.com/x` in a file of the project directory itself -/
-theorem compose_fails_dot_remote :
-    absContextStr ⟨W, H, fun _ => false, some⟩ (absContextStr ⟨['.'], H, fun _ => false, some⟩ (['.', '/'] ++ gh ++ ['/', 'x']))
-      ≠ absContextStr ⟨join W ['.'], H, fun _ => false, some⟩ (['.', '/'] ++ gh ++ ['/', 'x']) := by decide
+theorem compose_failed_dot_remote :
+    absContextStr₀ ⟨W, H, fun _ => false, some⟩ (absContextStr₀ ⟨['.'], H, fun _ => false, some⟩ (['.', '/'] ++ gh ++ ['/', 'x']))
+      ≠ absContextStr₀ ⟨join W ['.'], H, fun _ => false, some⟩ (['.', '/'] ++ gh ++ ['/', 'x']) := by decide
 
-/-- a directory named `C:`: the bind source `x` becomes `C:/x`, which stage 2 leaves alone as Windows-absolute -/
-theorem compose_fails_drive_dir :
-    (maybeUnixStr ⟨['C', ':'], H, fun _ => false, some⟩ ['x']).bind (maybeUnixStr ⟨W, H, fun _ => false, some⟩)
-      ≠ maybeUnixStr ⟨join W ['C', ':'], H, fun _ => false, some⟩ ['x'] := by decide
+/-- a directory named `C:`: the bind source `x` became `C:/x`, which stage 2 left alone as Windows-absolute -/
+theorem compose_failed_drive_dir :
+    (maybeUnixStr₀ ⟨['C', ':'], H, fun _ => false, some⟩ ['x']).bind (maybeUnixStr₀ ⟨W, H, fun _ => false, some⟩)
+      ≠ maybeUnixStr₀ ⟨join W ['C', ':'], H, fun _ => false, some⟩ ['x'] := by decide
+
+/-- the same inputs through the repaired resolvers: the first stage keeps a leading `./` -/
+theorem repaired_tilde_dir :
+    absPathStr ⟨['~'], H, fun _ => false, some⟩ ['x'] = ['.', '/', '~', '/', 'x'] ∧
+    absPathStr ⟨W, H, fun _ => false, some⟩ ['.', '/', '~', '/', 'x'] = ['/', 'w', '/', '~', '/', 'x'] := by decide
 
 end CV.Paths.Neg
